@@ -13,8 +13,9 @@ from vf import meta
 
 CALLS = {   # external calls of interest -> (label, SPEC raisable on arbitrary input, status taken from the log afterwards?)
     "open": ("open", ["IOError"], False),
-    "json.load": ("json.load", ["JSONDecodeError", "UnicodeDecodeError"], False),
-    "jsonschema.validate": ("jsonschema.validate", ["ValidationError"], False),
+    # RecursionError: a well-formed file nested deeper than the interpreter follows (json's decoder and jsonschema's validator recurse)
+    "json.load": ("json.load", ["JSONDecodeError", "UnicodeDecodeError", "RecursionError"], False),
+    "jsonschema.validate": ("jsonschema.validate", ["ValidationError", "RecursionError"], False),
     "json_deserialization.read_aas_json_file": ("read_aas_json_file", ["JSONDecodeError", "UnicodeDecodeError"], True),
     "etree.parse": ("etree.parse", ["XMLSyntaxError"], False),
     "xml_deserialization.read_aas_xml_file": ("read_aas_xml_file", [], True),
